@@ -423,7 +423,7 @@ namespace
         auto view = w.executor->view();
 
         std::vector<std::vector<SendRec>> logs((std::size_t)nprod);
-        std::atomic<i64>                  accepted{0};
+        std::atomic<i64>                  accepted{0}, calls{0}, finished{0};
         std::atomic<bool>                 run_error{false};
         std::atomic<i64>                  run_returned{0};
         std::thread                       runner([&] {
@@ -454,11 +454,13 @@ namespace
                     rec.result = do_send(sender, v, blocking);
                     rec.a      = w.ticket.fetch_add(1);
                     if (rec.result == 1) { accepted.fetch_add(1); }
+                    calls.fetch_add(1);
                     log.push_back(rec);
                     if (pace == 1) { std::this_thread::yield(); }
                     else if (pace == 2) { std::this_thread::sleep_for(std::chrono::microseconds{(r >> 8) % 300}); }
                     else if (pace == 3 && ((r >> 8) % 16) == 0) { std::this_thread::sleep_for(std::chrono::microseconds{500 + (r >> 16) % 2000}); }
                 }
+                finished.fetch_add(1);
             });
         }
 
@@ -493,31 +495,26 @@ namespace
             view.request_stop();
             stop_r = w.ticket.fetch_add(1);
         }
-        for (auto &t : producers) { t.join(); }
-        if (stop_mode != 1)
+        else
         {
-            // run "long enough": until everything accepted is delivered; a lost wake-up shows as a stall
+            // run "long enough": until every producer is through and everything accepted is delivered.
+            // Progress = a send call returned or a value was delivered; no progress for STALL_S seconds
+            // with work outstanding is a stall (a lost wake-up / a sender blocked for ever): the stop
+            // request below then releases whoever is stuck, so the harness itself never hangs.
             auto last_progress = std::chrono::steady_clock::now();
             i64  last          = -1;
             for (;;)
             {
-                bool done;
-                i64  n;
-                if (w.policy == 2)
-                {
-                    // conflating: done when nothing is pending any more
-                    n    = delivered_count();
-                    done = pending_items(w) == 0 && flag(w) == 0;
-                }
-                else
-                {
-                    n    = delivered_count();
-                    done = n >= accepted.load();
-                }
+                const bool producers_done = finished.load() == nprod;
+                const i64  n              = delivered_count();
+                bool       done;
+                if (w.policy == 2) { done = producers_done && pending_items(w) == 0 && flag(w) == 0; }
+                else { done = producers_done && n >= accepted.load(); }
                 if (done) { break; }
-                if (n != last)
+                const i64 progress = n + calls.load();
+                if (progress != last)
                 {
-                    last          = n;
+                    last          = progress;
                     last_progress = std::chrono::steady_clock::now();
                 }
                 else if (std::chrono::steady_clock::now() - last_progress > std::chrono::seconds{STALL_S})
@@ -531,6 +528,9 @@ namespace
             view.request_stop();
             stop_r = w.ticket.fetch_add(1);
         }
+        // a stalled run may have left senders blocked in send_blocking: the stop releases them once the
+        // run loop has left; give the run a moment, then join
+        for (auto &t : producers) { t.join(); }
         sampling = false;
         sampler.join();
         runner.join();
